@@ -233,7 +233,16 @@ def exec_equiv(trace, ctx):
     triples = [(paths["species"][s]["top_start"], paths["species"][s]["gro_end"], paths["species"][s]["top_end"])
                for s in trace["order"]]
     as_arg = (lambda p_: os.path.relpath(p_, d)) if relative else (lambda p_: p_)
-    argv = [as_arg(paths["system"])]
+    sys_arg = paths["system"]
+    via_link = (not relative) and (not trace["outfile"]) and trace["np_seed"] % 3 == 0
+    if via_link:
+        # the input is given as a symbolic link that lives in another directory and has another name than its target:
+        # "mapped_<input name> beside the input" speaks about the path the user gave
+        os.makedirs(os.path.join(d, "run"), exist_ok=True)
+        sys_arg = os.path.join(d, "run", "current.gro")
+        os.symlink(paths["system"], sys_arg)
+        ctx.probe("input_through_a_symbolic_link")
+    argv = [as_arg(sys_arg)]
     for t in triples:
         argv += ["--mol", *[as_arg(x) for x in t]]
     scale = trace["scale"] if trace["scale_given"] else 0.5
@@ -242,6 +251,8 @@ def exec_equiv(trace, ctx):
     if trace["outfile"]:
         cli_out = os.path.join(d, "cli_result.gro")
         argv += ["-o", as_arg(cli_out)]
+    elif via_link:
+        cli_out = os.path.join(d, "run", "mapped_current.gro")
     else:
         cli_out = os.path.join(wd, "mapped_system.gro")           # beside the input, wherever the cwd is
     if relative:
